@@ -203,6 +203,21 @@ def space(kind, tier, seed=0):
                 for combo in wl + wl2:
                     out.append((algo, cfg, combo, tps, dict(over=over)))
         return out
+    if kind.startswith("corner:"):
+        # corners of the configuration x workload space: 1 CPU, sub-GB RAM, zero-tick operators, growing memory
+        algo = kind[7:]
+        oc = algo == "overbook"
+        pools_opts = (2,) if algo == "priority-pool" else ((1, 2) if q else (1, 2, 3))
+        cfgs = [(p, c, r, m, oc) for p in pools_opts for c in (1, 2) for r in ((0.5, 8) if q else (0.5, 1, 8)) for m in (True, False)]
+        prios = ("B", "Q") if algo.startswith("priority") else ("B",)
+        for tps in ((1, 2) if q else (1, 2, 10)):
+            profs1 = [("z",), ("s1", "z"), ("z", "z", "s1"), ("grow",), ("s1", "over"), ("huge",)]
+            profs2 = [("z",), ("s1", "z"), ("grow",), ("huge",)]
+            wl = workloads(tps, (prios, list(SHAPES), profs1, (0, 1)), (prios, ("single", "chain2", "diamond"), profs2, (0, 1)), None)
+            for cfg in cfgs:
+                for combo in wl:
+                    out.append((algo, cfg, combo, tps, dict(over=0.75, small=0.5)))
+        return out
     if kind == "naive":
         cfgs = [(p, c, r, m, False) for p in ((1, 2) if q else (1, 2, 3)) for c in ((2,) if q else (1, 2)) for r in (4, 8) for m in (True, False)]
         for tps in ((1,) if q else (1, 2)):
